@@ -22,7 +22,8 @@ ASSUMPTIONS = [
 
 P.hashlib = types.SimpleNamespace(sha1=lambda data: types.SimpleNamespace(hexdigest=lambda: '0123456789abcdef0123'))
 
-_CH = ['a', 'A', '.', '/', '\\', ':', ' ', '\x00', '\x1f', '\x7f', '\xe9', '\x85', '\u2028', '\U0001F600', '%', '?', '*', '"', '<', '|', '\t', 'z', '\n', '\r']
+_CH = ['a', 'A', '.', '/', '\\', ':', ' ', '\x00', '\x1f', '\x7f', '\xe9', '\x85', '\u2028', '\U0001F600', '%', '?', '*', '"', '<', '|', '\t', 'z', '\n', '\r',
+       '\u2025', '\uff0e', '\uff0f', '\u2024', '\ufe52', '\uff3c', '\u0130']     # compatibility forms of '..', '.', '/', '\\'; a letter whose case folding changes length
 _WIN_BAD = set('\\|/:?"*<>')
 
 
@@ -66,7 +67,7 @@ def _safe_component_free(name, os_i, no_control, ascii_only):
 
 _SCHEMES = ['http', 'ftp', 'https']
 _HOSTS = ['example.com', 'example.com:8080', '[::1]:81', 'b\xfccher.example']
-_SEGS = ['a', '%2F', '%2E%2E', '%2e', '%00', '%5C', '..%2F', 'x' * 300, '.', '..', '', 'a%20.', 'con.', '%2E', '%2e%2E%2fetc', 'b ', '~', 'a%0Ab', 'notes.txt%0A', '%0D']
+_SEGS = ['a', '%2F', '%2E%2E', '%2e', '%00', '%5C', '..%2F', 'x' * 300, '.', '..', '', 'a%20.', 'con.', '%2E', '%2e%2E%2fetc', 'b ', '~', 'a%0Ab', 'notes.txt%0A', '%0D', '%E2%80%A5', '%EF%BC%8E%EF%BC%8E', '%EF%BC%8E%EF%BC%8E%EF%BC%8Fetc', '%E2%80%A4']
 _QUERIES = ['', '?q=1', '?x=/../../etc/passwd', '?..', '?a=%2F', '?.']
 
 
@@ -166,12 +167,14 @@ HARNESSES = [
       pre=['0 <= si <= 2 and 0 <= hi <= 3 and 0 <= s1 < %d and 0 <= s2 < %d and 0 <= s3 < %d and 0 <= nseg <= 3 and 0 <= qi < %d and 0 <= cut <= 3 and ' % (
           len(_SEGS), len(_SEGS), len(_SEGS), len(_QUERIES)) + _OPT_PRE],
       parts={'quick': [
-          {'tag': 'ftp_dirs_%s' % ('unix', 'win')[o], 'fix': dict(si='1', hi='0', nseg='2', s3='0', qi='0', use_dir='True', cut='0', protocol='False', hostname='True',
-                                                                 os_i=str(o), no_control='True', ascii_only='True', case_i='0', maxlen='0')} for o in (0, 1)] + [
+          {'tag': 'ftp_dirs_%s%s' % (('unix', 'win')[o], '_slash' if t else ''), 'fix': dict(si='1', hi='0', nseg='2', s3='0', qi='0', use_dir='True', cut='0', protocol='False', hostname='True',
+                                                                 os_i=str(o), no_control='True', ascii_only='True', case_i='0', maxlen='0', trailing=str(t))} for o in (0, 1) for t in (False, True)] + [
           {'tag': 'http_query', 'fix': dict(si='0', hi='1', nseg='1', s2='0', s3='0', use_dir='True', cut='0', protocol='True', hostname='True',
                                             no_control='True', ascii_only='False', case_i='1', maxlen='0')},
-          {'tag': 'ftp_flat_opts', 'fix': dict(si='1', hi='0', nseg='1', s2='0', s3='0', trailing='False', qi='0', use_dir='False', cut='0', protocol='False', hostname='False')},
-          {'tag': 'cut_hosts', 'fix': dict(si='1', nseg='3', s1='1', s2='2', trailing='False', qi='0', use_dir='True', os_i='0', no_control='False', ascii_only='True', case_i='0', maxlen='0')}],
+          {'tag': 'ftp_flat_opts_unix', 'fix': dict(si='1', hi='0', nseg='1', s2='0', s3='0', trailing='False', qi='0', use_dir='False', cut='0', protocol='False', hostname='False', os_i='0')},
+          {'tag': 'ftp_flat_opts_win', 'fix': dict(si='1', hi='0', nseg='1', s2='0', s3='0', trailing='False', qi='0', use_dir='False', cut='0', protocol='False', hostname='False', os_i='1')},
+          {'tag': 'cut_hosts_lo', 'fix': dict(si='1', nseg='3', s1='1', s2='2', trailing='False', qi='0', use_dir='True', os_i='0', no_control='False', ascii_only='True', case_i='0', maxlen='0'), 'pre': ['cut <= 1']},
+          {'tag': 'cut_hosts_hi', 'fix': dict(si='1', nseg='3', s1='1', s2='2', trailing='False', qi='0', use_dir='True', os_i='0', no_control='False', ascii_only='True', case_i='0', maxlen='0'), 'pre': ['cut >= 2']}],
              'thorough': [{'tag': 's%d_n%d_o%d_d%d' % (s, n, o, d), 'fix': dict(si=str(s), nseg=str(n), os_i=str(o), use_dir=str(bool(d)), hi='1', case_i='0', qi='2')}
                           for s in (0, 1) for n in (1, 2, 3) for o in (0, 1) for d in (0, 1)]},
       timeout={'quick': 280, 'thorough': 2400},
